@@ -129,7 +129,13 @@ where
                 steps.push(json!([i, pt, pc, w]));
             }
         }
-        return json!({ "ring": R::NAME, "len": len, "mats": mats, "vecs": vecs, "mode": mode, "steps": steps, "with_trans": mode != "steps" || rng.chance(3, 4) });
+        let mut case = json!({ "ring": R::NAME, "len": len, "mats": mats, "vecs": vecs, "mode": mode, "steps": steps, "with_trans": mode != "steps" || rng.chance(3, 4) });
+        // one run in five tracks the transfer maps in a random subset of the degrees only
+        if mode != "reduced" && case["with_trans"] == true && rng.chance(1, 5) {
+            let mask: Vec<bool> = (0..len + 2).map(|_| rng.chance(1, 2)).collect();
+            case["trans_mask"] = json!(mask);
+        }
+        return case;
     }
 }
 
@@ -197,7 +203,24 @@ where
         let ms = (0..=len).map(|i| r.d_matrix(i as isize)).collect();
         return Reduced { mats: ms, trans: vec![None; len + 1], vecs: vec![] };
     }
-    let mut r = ChainReducer::from(&c, with_trans);
+    // transfer maps may be asked for in some degrees only (`set_matrix(i, d, with_trans)` per degree,
+    // exactly as `ChainReducer::from` does it for all of them)
+    let mut r = match case.get("trans_mask").and_then(|m| m.as_array()) {
+        Some(mask) => {
+            use yui_homology::{ChainComplexTrait, GridTrait};
+            let mut r = ChainReducer::new(c.support(), c.d_deg());
+            for i in c.support() {
+                for j in [i, i + c.d_deg()] {
+                    if !r.is_set(j) {
+                        let on = mask.get(j.max(0) as usize).and_then(|b| b.as_bool()).unwrap_or(false);
+                        r.set_matrix(j, c.d_matrix(j), on);
+                    }
+                }
+            }
+            r
+        }
+        None => ChainReducer::from(&c, with_trans),
+    };
     let tracked: Vec<(usize, SpVec<R>)> = case["vecs"].as_array().unwrap().iter().map(|v| {
         let d = v[0].as_u64().unwrap() as usize;
         let n = mats[d].ncols();
